@@ -168,3 +168,11 @@ Definition fresh (c : scfg) (s : sys) : Prop :=
   (∀ d, getb (L1.bk (l1 s)) (escrow_of c) d = 0%Z) ∧ L1.seq_of (l1 s) (bid c) = 1%N ∧
   L2.wlog (l2 s) = [] ∧ L2.pairs (l2 s) = ∅ ∧ L2.next_l1 (l2 s) = 1%N ∧ L2.next_l2 (l2 s) = 1%N ∧
   (∀ d', gets (L2.bk (l2 s)) d' = 0%Z) ∧ paid s = [] ∧ donated s = [].
+
+(* a consistent bank: no negative balance, and the supply of every denom is the sum of its balances *)
+Definition bal_total (b : bank) (d : bytes) : Z :=
+  map_fold (λ (k : N * denom) (v acc : Z), if decide (k.2 = d) then (v + acc)%Z else acc) 0%Z (bal b).
+Definition bank_sane (b : bank) : Prop :=
+  (∀ a d, (0 ≤ getb b a d)%Z) ∧ (∀ d, bal_total b d = gets b d).
+(* genesis: fresh, with a consistent L2 bank *)
+Definition genesis (c : scfg) (s : sys) : Prop := fresh c s ∧ bank_sane (L2.bk (l2 s)).
